@@ -721,3 +721,47 @@ spec("C14", plan=plan_c14, post=post_c14,
           "Non-trivial: strings the oracle accepts and single-edit mutants of accepted documents; distinct by hash of the text.  The "
           "oracle itself is cross-checked against Python's json on the sampled documents every run.",
      assumptions=COMMON_ASSUME + ["oracles/json_ref.hpp transcribes RFC 8259; cross-checked every run against Python's json module on up to 64000 sampled strings"])
+
+# ---------------------------------------------------------------------------- C20
+
+
+def post_selftest(results, workdir, notes):
+    bad = sum(1 for n in notes if "ORACLE-SELFTEST-FAILED" in n)
+    return bad
+
+
+def plan_c20(tier, seed, workdir, case):
+    t = Target("c20_uri", "targets/c20_uri.cpp", mode="rc", extra=("-O2",))
+    return [Run(t, nshards=1 if case else 16, timeout=3000)]
+
+
+spec("C20", plan=plan_c20, post=post_selftest,
+     rule="differential against a language-exact matcher (set-of-end-positions, full backtracking) for RFC 3986 Appendix A typed as data "
+          "(oracles/uri_abnf_ref.hpp), self-tested on the RFC's examples (1.1.2, 5.4) and the repository's test URIs: ALL strings up to "
+          "length 5 (thorough 6) over the alphabet a 1 : / ? # [ ] @ % . - F for URI, URI-reference, absolute-URI, IPv4address, "
+          "IPv6address (each followed by eof); structured IPv4/IPv6 texts (21 octet texts incl. 0..300, leading zeros; 0..9 groups x '::' "
+          "at every position x embedded IPv4 x group texts of 0..5 hex digits), also embedded as host / IP-literal; rapidcheck random "
+          "derivations from the ABNF (random case of case-insensitive literals) and 10 single-edit mutants of each.  parse_error = "
+          "rejection, any other exception = violation.  Non-trivial: derivable strings, structured address texts and mutants of "
+          "derivations; distinct by text.",
+     assumptions=COMMON_ASSUME + ["oracles/uri_abnf_ref.hpp transcribes RFC 3986 Appendix A; oracles/abnf_ref.hpp implements ABNF matching exactly (quoted strings case-insensitive)"])
+
+# ---------------------------------------------------------------------------- C15
+
+
+def plan_c15(tier, seed, workdir, case):
+    t = Target("c15_integer", "targets/c15_integer.cpp", mode="rc", extra=("-O2",))
+    return [Run(t, nshards=1 if case else 16, timeout=3000)]
+
+
+spec("C15", plan=plan_c15,
+     rule="ALL digit strings of 0..6 digits (one digit beyond the width of the 16-bit types, three beyond the 8-bit ones; leading zeros "
+          "included) x sign {none,+,-} x trailer {end, letter, space, dot, minus}; for every target type neighbourhoods +-20 (with 0/1/2 "
+          "leading zeros, all signs, with/without trailing letter) of 2^7, 2^8, 2^15, 2^16, 2^31, 2^32, 2^63, 2^64, a tenth and ten times "
+          "each, and 10^0..10^22; rapidcheck digit strings <= 25 digits.  Rules: unsigned_rule, signed_rule (and _new/_bis/_ter), "
+          "unsigned_action, signed_action, unsigned/signed_rule_with_action, maximum_rule, maximum_rule_with_action, maximum_action for "
+          "all eight 8..64-bit types and 22 explicit Maximum values around powers of ten and type maxima, with a non-zero previous value "
+          "in the target.  Oracle: numeral syntax per the documented grammar (no superfluous leading zero), value by 128-bit arithmetic: "
+          "match result, consumed length, stored value exact, or overflow signalled (parse_error; local failure without consumption for "
+          "maximum_rule), never a wrapped value.  Non-trivial: numerals that overflow the target or lie within 20 of a boundary.",
+     assumptions=COMMON_ASSUME)
